@@ -281,19 +281,48 @@ pub fn history(f: &Flat, res: &RunResult, st: &mut HistoryStats, content: bool) 
         }
         // history targets of the transitions taken
         let mut justified_defaults: Vec<usize> = Vec::new();
+        // (history, reached only through its parent's own initial specification)
+        let mut candidates: Vec<(usize, bool)> = Vec::new();
         for uid in &step.uids {
-            let t = match tmap.get(uid) {
-                Some(t) => *t,
-                None => continue,
-            };
-            for &h in &t.targets {
-                if !f.is_history(h) {
-                    continue;
+            if let Some(t) = tmap.get(uid) {
+                for &h in &t.targets {
+                    if f.is_history(h) {
+                        candidates.push((h, false));
+                    }
                 }
+            }
+        }
+        // a state entered in this step whose initial specification names its history child: whether the
+        // initial was followed (default entry) or not (entered as ancestor of an explicit target) is not
+        // decided here, so absence of the default content is left to the reference comparison
+        for &p in &entered {
+            if let Some((targets, _)) = &f.s[p].initial {
+                for &h in targets {
+                    if f.is_history(h) && !candidates.iter().any(|(x, _)| *x == h) {
+                        candidates.push((h, true));
+                    }
+                }
+            }
+        }
+        {
+            for &(h, via_initial) in &candidates {
                 let p = f.s[h].parent.unwrap();
                 let deep = matches!(f.s[h].kind, Kind::History { deep: true });
                 let hd_count = step.seq.iter().filter(|e| matches!(e, StepEv::Mark(m) if *m == format!("hd:{}", name(h)))).count();
+                let hd_ran = hd_count > 0;
+                if via_initial && !hd_ran && rec.get(&h).is_none() {
+                    // initial not followed, or default content missing: the reference decides
+                    continue;
+                }
                 match rec.get(&h) {
+                    Some(_) if via_initial => {
+                        if content && hd_count != 0 {
+                            return Err((
+                                "history-default-content-although-recorded".into(),
+                                format!("history {} has a recorded value but its default transition content ran", name(h)),
+                            ));
+                        }
+                    }
                     Some(r) => {
                         if deep {
                             st.restores_deep += 1;
